@@ -1422,6 +1422,23 @@ def b15_b16(e: Engine, rep: Report):
                     'text - the bounce names an address / quotes a reply '
                     'that differs from the real one' % (mname, x.func.attr),
                     loc=m.loc(x))
+            if isinstance(x, ast.Call) and isinstance(x.func, ast.Attribute) \
+                    and x.func.attr in ('encode', 'decode'):
+                err = x.args[1] if len(x.args) > 1 else next(
+                    (kw.value for kw in x.keywords if kw.arg == 'errors'),
+                    None)
+                if isinstance(err, ast.Constant) and err.value in (
+                        'replace', 'ignore', 'xmlcharrefreplace',
+                        'backslashreplace', 'namereplace'):
+                    rep.evaluations += 1
+                    rep.bad('B16', m.qname, '`%s`' % ' '.join(
+                        ast.unparse(x).split())[:50],
+                        'BytesFormat.%s renders the substituted values with '
+                        'the lossy error handler %r: every character outside '
+                        'the codec is written as something else - a reply '
+                        'or an address with non-ASCII text is quoted in the '
+                        'bounce as a text the destination never sent'
+                        % (mname, err.value), loc=m.loc(x))
     rep.evaluations += 1
     if k < 2:
         rep.error('anchor vanished: rendering methods of BytesFormat')
